@@ -433,8 +433,12 @@ func c08Scenarios(tier string) []*Scenario {
 			}
 			return strings.Join(v, " | ")
 		}
+		hb := bound
+		if tier == "thorough" {
+			hb = 4 // bound 6 does not finish inside the tier's budget (1.2e7 executions explored, then cut off)
+		}
 		out = append(out, &Scenario{Name: "dispatch/peer-hangs-up-behind-a-burst/closenotify-active/" + ptB, Body: srvBody(o), Check: check,
-			Outcome: func(s *vs.Sched) string { return strings.Join(srvSt.events, ",") }, Bound: bound, Horizon: 10 * time.Second})
+			Outcome: func(s *vs.Sched) string { return strings.Join(srvSt.events, ",") }, Bound: hb, Horizon: 10 * time.Second})
 	}
 	out = append(out, c08RelayBlocked(false, bound), c08RelayBlocked(true, bound))
 	out = append(out, c08RelayBlockedMulti(false, bound), c08RelayBlockedMulti(true, bound))
